@@ -686,7 +686,13 @@ func (s *programState) receiveFrom(destination parser.Destination, amount *big.I
 				break
 			}
 
-			err = handler(destinationClause.To, utils.MinBigInt(cap, remainingAmount))
+			// a negative cap counts as zero (same as in sources)
+			amountToReceive := utils.MinBigInt(cap, remainingAmount)
+			if amountToReceive.Sign() == -1 {
+				amountToReceive.SetInt64(0)
+			}
+
+			err = handler(destinationClause.To, amountToReceive)
 			if err != nil {
 				return err
 			}
